@@ -72,13 +72,11 @@ def bgpFrames : Nat → Bytes → Option (List (Bytes × Nat))
     | none => none
     | some (f, rest) => (bgpFrames fuel rest).map (f :: ·)
 
-abbrev Tbl := List (Bytes × Content × Content)
+abbrev Tbl := List (Bool × Bytes × Content)
 
-/-- what the repository's decoder reads in `frame` with add-path off / on -/
-def lookup (tbl : Tbl) (frame : Bytes) : Option (Content × Content) :=
-  (tbl.find? (fun r => decide (r.1 = frame))).map (·.2)
-
-def pick (ap : Bool) (c : Content × Content) : Content := if ap then c.2 else c.1
+/-- what the repository's decoder reads in `frame` with add-path setting `ap` -/
+def lookup (tbl : Tbl) (ap : Bool) (frame : Bytes) : Option Content :=
+  (tbl.find? (fun r => decide (r.1 = ap ∧ r.2.1 = frame))).map (·.2.2)
 
 /-- NLRI lists agree: with add-path the path identifiers count, without it only the prefixes -/
 def entsEq (ap : Bool) (a b : List (Nat × Bytes)) : Bool :=
@@ -91,13 +89,27 @@ def unreachEnts : Content → List (Nat × Bytes)
   | .unreach _ e => e
   | _ => []
 
+/-- flags agree except for the extended-length bit, which follows the encoding (the decoder keeps the
+    wire flags; C04 names this canonicalisation) -/
+def flagsAgree (wire intended : Nat) : Bool :=
+  decide (wire / 32 = intended / 32) && decide (wire % 16 = intended % 16)
+
+def attrAgrees (a b : Attr) : Bool :=
+  decide (a.code = b.code) && flagsAgree a.flags b.flags && decide (a.kind = b.kind) && decide (a.val = b.val) &&
+    decide (a.data = b.data)
+
+def allMatch {α β} (f : α → β → Bool) : List α → List β → Bool
+  | [], [] => true
+  | a :: as, b :: bs => f a b && allMatch f as bs
+  | _, _ => false
+
 /-- the parsed PDUs jointly carry the monitored message -/
 def carries (ap : Bool) (mon : Content) (ps : List Content) : Bool :=
   match mon with
   | .reach fam ents nh attrs =>
       !ps.isEmpty &&
       ps.all (fun p => match p with
-        | .reach f _ n a => decide (f = fam) && decide (n = nh) && decide (a = attrs)
+        | .reach f _ n a => decide (f = fam) && decide (n = nh) && allMatch attrAgrees a attrs
         | _ => false) &&
       entsEq ap (ps.flatMap reachEnts) ents
   | .unreach fam ents =>
@@ -110,9 +122,10 @@ def carries (ap : Bool) (mon : Content) (ps : List Content) : Bool :=
 
 /-- salient input class of a monitored message (part of the failure signature) -/
 def nhClass : Content → String
-  | .reach fam _ (some nh) _ =>
+  | .reach fam _ (some nh) attrs =>
       if fam / 65536 = 1 ∧ 16 ≤ nh.length then "v4-nlri-v6-nexthop"
-      else if fam / 65536 = 2 ∧ nh.length = 4 then "v6-nlri-v4-nexthop" else "plain"
+      else if fam / 65536 = 2 ∧ nh.length = 4 then "v6-nlri-v4-nexthop"
+      else if (attrs.map (fun a => a.data.length)).sum > 3500 then "large-attributes" else "plain"
   | .reach _ _ none _ => "no-nexthop"
   | _ => "plain"
 
@@ -123,10 +136,10 @@ def checkUpdatePdus (who : String) (tbl : Tbl) (ap : Bool) (mon : Content) (s : 
   | some fs =>
     if fs.any (fun f => f.2 != 2) then some s!"{who}-pdu-not-update"
     else
-      match fs.mapM (fun f => lookup tbl f.1) with
+      match fs.mapM (fun f => lookup tbl ap f.1) with
       | none => some s!"{who}-pdu-unknown-to-decoder-table"
       | some cs =>
-        if !carries ap mon (cs.map (pick ap)) then some s!"{who}-content-differs class={nhClass mon}"
+        if !carries ap mon cs then some s!"{who}-content-differs class={nhClass mon}"
         else if fs.length != 1 then some s!"{who}-not-single-pdu"
         else none
 
@@ -137,9 +150,9 @@ def checkPdusExact (who : String) (tbl : Tbl) (typ : Nat) (mons : List Content) 
   | some fs =>
     if fs.length != mons.length || fs.any (fun f => f.2 != typ) then some s!"{who}-framing"
     else
-      match fs.mapM (fun f => lookup tbl f.1) with
+      match fs.mapM (fun f => lookup tbl false f.1) with
       | none => some s!"{who}-unknown-to-decoder-table"
-      | some cs => if decide (cs.map (·.1) = mons) then none else some s!"{who}-differs"
+      | some cs => if decide (cs = mons) then none else some s!"{who}-differs"
 
 /-! ### RFC 7854 -/
 
@@ -373,11 +386,6 @@ def peerMatches (p : PeerEnt) (x : Nat × Bytes × Bytes × Nat) : Bool :=
   decide ((x.1 % 2 = 1) ↔ p.addr.isV6 = true) && decide (x.1 < 4) && decide (x.2.1 = p.bgpId) &&
     decide (x.2.2.1 = p.addr.bytes) && decide (x.2.2.2 = p.asn)
 
-def allMatch {α β} (f : α → β → Bool) : List α → List β → Bool
-  | [], [] => true
-  | a :: as, b :: bs => f a b && allMatch f as bs
-  | _, _ => false
-
 def checkPeerIndex (rid : Bytes) (peers : List PeerEnt) (body : Bytes) : Option String :=
   match take? 4 body with
   | none => some "pit-truncated"
@@ -442,10 +450,6 @@ def attrValue (a : Attr) : Bytes :=
             else [a.val / 16777216 % 256, a.val / 65536 % 256, a.val / 256 % 256, a.val % 256]
   | _ => a.data
 
-/-- flags agree except for the extended-length bit, which follows the encoding -/
-def flagsAgree (wire intended : Nat) : Bool :=
-  decide (wire / 32 = intended / 32) && decide (wire % 16 = intended % 16)
-
 def tlvMatches (want : Nat × Nat × Bytes) (got : Nat × Nat × Bytes) : Bool :=
   flagsAgree got.1 want.1 && decide (got.2.1 = want.2.1) && decide (got.2.2 = want.2.2)
 
@@ -457,13 +461,19 @@ def wantedTlvs (v6 : Bool) (e : RibEnt) : List (Nat × Nat × Bytes) :=
      | none => []
      | some nh => if v6 then [(128, 14, (nh.length % 256) :: nh)] else [(64, 3, nh)])
 
+/-- a peer index refers to an entry of the PEER_INDEX_TABLE in force (if the case has one) -/
+def pidxOk (np : Option Nat) (i : Nat) : Bool :=
+  match np with
+  | none => true
+  | some n => decide (i < n)
+
 def entMatches (v6 : Bool) (np : Option Nat) (e : RibEnt) (x : Nat × Nat × Bytes) : Option String :=
   match readAttrTlvs (x.2.2.length + 1) x.2.2 with
   | none => some "rib-attribute-length"
   | some tlvs =>
     firstFail [ (decide (x.1 = e.pidx ∧ x.2.1 = e.orig), "rib-entry-differs"),
                 (allMatch tlvMatches (wantedTlvs v6 e) tlvs, "rib-attributes-differ"),
-                (match np with | none => true | some n => decide (x.1 < n), "rib-peer-index") ]
+                (pidxOk np x.1, "rib-peer-index") ]
 
 def entsMatch (v6 : Bool) (np : Option Nat) : List RibEnt → List (Nat × Nat × Bytes) → Option String
   | [], [] => none
@@ -557,9 +567,10 @@ def hdrDom (h : PeerHdr) : Bool :=
   decide (h.ptype < 256) && decide (h.flags < 128) && decide (h.dist < 18446744073709551616) && ipWf h.addr &&
     decide (h.asn < 4294967296) && decide (h.bgpId.length = 4) && decide (h.ts < 4294967296)
 
-/-- a monitored UPDATE names at least one prefix (Adj-RIB-In / Loc-RIB changes do) -/
+/-- a monitored UPDATE names at least one prefix (Adj-RIB-In / Loc-RIB changes do) and, for the unicast /
+    multicast families explored here, an announcement has a next hop (`validate_update` guarantees it) -/
 def monDom : Content → Bool
-  | .reach _ e _ _ => !e.isEmpty
+  | .reach _ e nh _ => !e.isEmpty && nh.isSome
   | .unreach _ e => !e.isEmpty
   | _ => true
 
@@ -578,11 +589,14 @@ def tlvSize (a : Attr) : Nat :=
   let v := attrValue a
   2 + (if v.length > 255 ∨ a.flags / 16 % 2 = 1 then 2 else 1) + v.length
 
+/-- size of the attribute block of a RIB entry: the attribute TLVs, then the next-hop attribute -/
+def attrBlockSize (v6 : Bool) (e : RibEnt) : Nat :=
+  (e.attrs.map tlvSize).sum + (match e.nh with | none => 0 | some nh => nh.length + (if v6 then 4 else 3))
+
 def entDom (v6 : Bool) (e : RibEnt) : Bool :=
   decide (e.pidx < 65536) && decide (e.orig < 4294967296) && e.attrs.all attrDom &&
     (match e.nh with | none => true | some nh => decide (nh.length < 255)) &&
-    decide ((e.attrs.map tlvSize).sum +
-      (match e.nh with | none => 0 | some nh => nh.length + (if v6 then 4 else 3)) < 65536)
+    decide (attrBlockSize v6 e < 65536)
 
 def recDom (np : Option Nat) : Rec → Bool
   | .bmpRm h _ emb mon => hdrDom h && emb.isSome && monDom mon
@@ -595,7 +609,9 @@ def recDom (np : Option Nat) : Rec → Bool
          | .remoteNotif emb _ => emb.isSome
          | .localFsm c => decide (c < 65536)
          | _ => true)
-  | .bmpInit tlvs => tlvs.all (fun t => decide (t.1 < 65536) && decide (t.2.length < 65536))
+  | .bmpInit tlvs =>
+      tlvs.all (fun t => decide (t.1 < 65536) && decide (t.2.length < 65536)) &&
+        decide ((tlvs.map (fun t => 4 + t.2.length)).sum + 6 < 4294967296)
   | .mrtMp h _ emb mon =>
       h.asn4 && decide (h.rasn < 4294967296) && decide (h.lasn < 4294967296) && decide (h.ifidx < 65536) &&
         ipWf h.raddr && ipWf h.laddr && decide (h.laddr.isV6 = h.raddr.isV6) && emb.isSome && monDom mon
@@ -605,7 +621,8 @@ def recDom (np : Option Nat) : Rec → Bool
   | .tdRib v6 ts seq mask addr ents =>
       decide (ts < 4294967296) && decide (seq < 4294967296) && decide (addr.length = (if v6 then 16 else 4)) &&
         decide (mask ≤ (if v6 then 128 else 32)) && decide (ents.length < 65536) && ents.all (entDom v6) &&
-        (match np with | none => true | some n => ents.all (fun e => decide (e.pidx < n)))
+        decide ((ents.map (fun e => 8 + attrBlockSize v6 e)).sum + 24 < 4294967296) &&
+        ents.all (fun e => pidxOk np e.pidx)
   | _ => true
 
 def recsDom : Option Nat → List Rec → Bool
